@@ -76,7 +76,15 @@ def writeCase (root : String) (idx : Nat) (seed : Nat) (cyclic small : Bool) (ws
     | .complexType n d _ => content n d
     | .elementAnon n d => content n d
     | _ => none
-  IO.FS.writeFile s!"{dir}/shapes.txt" (String.join (shapeLines.map (· ++ "\n")))
+  -- whole complex types without base and documentation (`ComplexDef.toX`, the tree of `c02_type_read_matches_reference`)
+  let typeLines := s.files.flatMap fun f => f.comps.filterMap fun c =>
+    let fname := match s.wsdl with
+      | some w => if (s.files[w.schemaFile]?).map (fun (g : SchemaFile) => g.fileName) == some f.fileName then w.fileName else f.fileName
+      | none => f.fileName
+    match c with
+    | .complexType n d none => if d.base.isNone then some s!"TSHAPE\t{fname}\t{n}\t{(d.toX f n []).shape}" else none
+    | _ => none
+  IO.FS.writeFile s!"{dir}/shapes.txt" (String.join ((shapeLines ++ typeLines).map (· ++ "\n")))
   IO.FS.writeFile s!"{dir}/ref.obs" (String.join ((Ref.structLines s ++ Ref.wsdlLines s).map (· ++ "\n")))
 
 def main (seed count : Nat) (root : String) (cyclic : Bool := false) (small : Bool := false) (wsdl : Bool := false) (multi : Bool := false) (topo : Bool := false) (plain : Bool := false) : IO UInt32 := do
